@@ -19,9 +19,10 @@ import (
 // ---------------- C01: bytes on the wire ----------------
 
 type c01wpath struct {
-	Nodes   int      `json:"nodes"`
-	Filters []string `json:"initial_filters"`
-	Events  []string `json:"events"` // sub:<f> / unsub:<f>
+	Nodes     int      `json:"nodes"`
+	Filters   []string `json:"initial_filters"`
+	Events    []string `json:"events"` // sub:<f> / unsub:<f>
+	OnePacket bool     `json:"initial_filters_in_one_subscribe_packet"`
 }
 
 var c01wFilters = []string{"a", "a/b", "+", "+/b", "a/+", "#", "a/#", "a/b/#", "+/+", "b/#"}
@@ -31,10 +32,13 @@ func c01wpaths() []c01wpath {
 	var out []c01wpath
 	for _, n := range []int{1, 2} {
 		for _, f1 := range c01wFilters {
-			out = append(out, c01wpath{n, []string{f1}, nil})
+			out = append(out, c01wpath{n, []string{f1}, nil, false})
 			for _, f2 := range c01wFilters {
 				if f1 != f2 {
-					out = append(out, c01wpath{n, []string{f1, f2}, nil})
+					out = append(out, c01wpath{n, []string{f1, f2}, nil, false})
+					if n == 1 {
+						out = append(out, c01wpath{n, []string{f1, f2}, nil, true})
+					}
 				}
 			}
 		}
@@ -49,7 +53,7 @@ func c01wpaths() []c01wpath {
 		var rec func(cur []string)
 		rec = func(cur []string) {
 			if len(cur) >= 2 {
-				out = append(out, c01wpath{n, nil, append([]string{}, cur...)})
+				out = append(out, c01wpath{n, nil, append([]string{}, cur...), false})
 			}
 			if len(cur) == depth {
 				return
@@ -90,11 +94,20 @@ func TestC01Wire(t *testing.T) {
 				s2.Subscribe(2, 0, "#")
 				active := map[string]bool{}
 				mid := int32(10)
-				for _, f := range p.Filters {
+				if p.OnePacket {
 					mid++
-					s1.Subscribe(mid, 0, f)
-					active[f] = true
+					s1.Subscribe(mid, 0, p.Filters...)
+					for _, f := range p.Filters {
+						active[f] = true
+					}
 					w.Step()
+				} else {
+					for _, f := range p.Filters {
+						mid++
+						s1.Subscribe(mid, 0, f)
+						active[f] = true
+						w.Step()
+					}
 				}
 				for _, e := range p.Events {
 					mid++
